@@ -116,6 +116,8 @@ def to_scenario(hist, name, drain=True):
             steps.append({"e": "f", "r": "err"})
         elif a == "werr":
             steps.append({"e": "werr"})
+        elif a == "wzero":
+            steps.append({"e": "wzero"})
         elif a == "r":
             serial += 1
             pkt = enc_packet(p, serial)
